@@ -42,6 +42,10 @@ def predicate(tr, rep):
         if st["alias"]:
             rep.problem("private", "the record shares storage with the working population: " + ", ".join(st["alias"]), where,
                         "record-aliases-population", True, st["alias"], None, "C01_fittest_private")
+    if tr.get("kept_changed"):
+        rep.problem("private", "a get_fittest() result kept by the caller at a generation boundary was changed by later optimizer updates "
+                    "(reports of callbacks %s of %d)" % (tr["kept_changed"][:6], tr["kept_reports"]), dict(cfg=cfg),
+                    "report-changed-later", True, None, None, "C01_fittest_private")
     # in-place population updates after the run must not change the record
     opt = tr["opt"]
     before = L.snap(opt._thefittest.get())
